@@ -38,17 +38,17 @@ CHECKS = {
     "C07": dict(
         technique="TLC enumeration of macro programs from Macro.tla with the spec's expected captured strings as oracle; captured constants of the real tree trace-validated by TLC (WordSplit.tla)",
         text="Macro.tla enumerates call-macro argument lists (46 segments incl. compatibility characters, bracket groups, strings with commas/brackets, f-strings, keywords, invalid Python, comments/newlines in brackets x blanks x trailing comma x 8 hosts x followers), subprocess-macro bodies x 4 forms x paddings, and with-macro blocks (line trees up to 3-4 lines, nested indentation, blank/comment lines, 3 indentation units, nested in an if block, one-line form); the strings found in the real call_macro / enter_macro / subproc_* call must equal the model's expectation and the follower statement - which may itself be a macro - must parse as on its own. In addition TokenSource.tla (cache / index / push-back / macro flags, the call-macro and the with-macro raw capture loops) is model-checked (IndexOK, PushbackAtMostOne, NoBlankDelivered, ExhaustionIsError, CaptureIsSlice, WithCaptureIsBlock, CacheAppendOnly, WithFlagClearedAtDedent) and every TLC behaviour over 18 synthetic raw token streams is replayed into the real Tokenizer class, state and captured text compared after every call.",
-        note="Oracle is the model. Bounded by MaxArgs/MaxSegs/MaxLines per configuration. Two known findings (with! block starting with a comment; backtick/f-string in a subprocess-macro body).",
+        note="Oracle is the model. Bounded by MaxArgs/MaxSegs/MaxLines per configuration. No known finding left (both earlier ones - a block starting with a comment, search paths / f-strings in a subprocess-macro body - were repaired in /repo).",
         ref="5/C07"),
     "C09": dict(
         technique="TLC-enumerated Python sub-alphabet strings + program layouts -> real tokenizer vs CPython tokenize; stream pairs trace-validated by TLC (TokAgree.tla)",
         text="Every abstract string over the Python sub-alphabets (numbers, operator runs, string prefix/quote/body classes, indentation with spaces/tabs/form feeds/CR, comments, continuations) up to a bound, the C01 program space in several layouts, the corpus and its layout variants are tokenized by both tokenizers; for every text in the domain TLC validates the reduced stream pair against TokAgree.tla (types in order; text and coordinates of NAME/NUMBER/STRING/OP; structural tokens by sequence position).",
-        note="Domain (stated in DESIGN 5/C09): CPython's tokenize accepts without ERRORTOKEN, NUMBER tokens are valid literals, no '<>' , no xonsh-only lexeme, no f-string (C10). Four known findings (lone CR, unbalanced closer, continuation-only line, continued comment at EOF).",
+        note="Domain (stated in DESIGN 5/C09): CPython's tokenize accepts without ERRORTOKEN, NUMBER tokens are valid literals, no '<>' , no xonsh-only lexeme, no f-string (C10). One known finding (lone CR as a line end); unbalanced closers, continuation-only lines and the continued comment at EOF were repaired.",
         ref="5/C09"),
     "C10": dict(
         technique="TLC enumeration of f-string literals from FString.tla -> real tokenizer/parser vs CPython; token-stream pairs (TokAgree.tla) and tree pairs (AstEq.tla) trace-validated by TLC",
         text="FString.tla enumerates prefix (8) x quote (4) x sequences of 75 items (literal-part classes and replacement-field forms incl. conversions, '=', specs, nested fields, nested f-strings, lambda/dict/walrus, multi-line fields and specs, CRLF twins, backslash-newline, invalid-unless-raw escapes / conversions) x adjacent-literal concatenations (str / bytes / u / f neighbours), plus every complete single-line literal of the mode-machine model FMode.tla; every f-string of the corpus / stdlib sample is added. For every literal CPython accepts, TLC validates the reduced token-stream pair and the flattened tree pair (with spans).",
-        note="CPython 3.12.1 is the oracle. Seven known findings by family (six earlier ones were repaired); a difference is attributed to one only if the same literal with that feature removed (harness/fsreduce.py) agrees completely in tokens and tree - or, for the two CPython tokenizer quirks (token cut after \\N{..}, empty parts in format specs), if the streams / trees recomputed in the worker with exactly those parts set aside are equal - otherwise it is a violation.",
+        note="CPython 3.12.1 is the oracle. Four known findings by family (doubled-brace tokens, non-ASCII columns, and the two CPython tokenizer quirks; nine earlier ones were repaired); a difference is attributed to one only if the same literal with that feature removed (harness/fsreduce.py) agrees completely in tokens and tree - or, for the two CPython tokenizer quirks (token cut after \\N{..}, empty parts in format specs), if the streams / trees recomputed in the worker with exactly those parts set aside are equal - otherwise it is a violation.",
         ref="5/C10"),
     "C11": dict(
         technique="trace validation: every SyntaxError/IndentationError raised by the real parser on TLC-generated rejected inputs checked by TLC against ErrShape.tla",
@@ -78,7 +78,7 @@ CHECKS = {
     "C17": dict(
         technique="TLC evaluates the denotational PEG semantics (Peg.tla, incl. seed-growing left recursion) for every grammar x token string; the real generators' parsers are run on the same inputs and validated by TLC against PegTrace.tla",
         text="The oracle is the specification: Peg.tla defines Sem for ordered choice, sequences, optional, star/plus, gathers, groups, positive/negative lookahead, cut, forced tokens, memo flags and direct/indirect left recursion, and TLC evaluates it on 36 hand-picked grammars (one per feature pair) + seeded random well-formed grammars (1-3 rules) x every token string up to length 4 (quick) / 5 (thorough) over a 5-token alphabet (NAME, NUMBER, two operators, a keyword). Each grammar is printed in .gram notation, read by the real metagrammar parser, generated by XonshParserGenerator (peg_parser runtime) and by PythonParserGenerator (pegen runtime), and executed through the real tokenizers; result, end position and action value must equal Sem. A history variant generates 24 grammars in one interpreter.",
-        note="Family bounds: wrappers apply to a token, rule or group (no wrapper-of-wrapper), forced only of punctuation tokens (the notation's own limits). Leaders computed independently (harness/pegfam.py). One known finding (single-item group / rule action dropped).",
+        note="Family bounds: wrappers apply to a token, rule or group (no wrapper-of-wrapper), forced only of punctuation tokens (the notation's own limits). Leaders computed independently (harness/pegfam.py). No known finding left (the dropped action of a single-item group / rule was repaired in pegen/).",
         ref="5/C17"),
     "C18": dict(
         technique="TLC enumeration of size-parameterised input families (Work.tla) -> work counters of the real parser (Tokenizer calls counted while the public parse_string runs); recorded series validated by TLC against the linear-growth law (WorkLaw.tla)",
@@ -89,7 +89,7 @@ CHECKS = {
     "C14": dict(
         technique="TLC enumeration of statement sequences from StmtSeq.tla -> composition law checked on the real parser; tree pairs (whole vs shifted parts) trace-validated by TLC (AstEq.tla)",
         text="StmtSeq.tla lists 55 complete statement forms (Python simple/compound, multi-line tokens, comment/blank lines, every xonsh statement form incl. empty macros and path-literal concatenations); TLC enumerates every sequence of up to 2 (all kinds) / 3 (xonsh-heavy subset) kinds in quick, 3 / 4 in thorough; the body of the concatenation must equal the bodies of the parts with shifted line numbers, positions included.",
-        note="Reference = the same parser on each part alone (the property's relation). One known finding (blank/comment lines after a with! block join its body).",
+        note="Reference = the same parser on each part alone (the property's relation). One known finding (blank lines after a with! block join its body - the behaviour the repository's own test asks for).",
         ref="5/C14"),
     "C08": dict(
         technique="trace validation: real token streams checked by TLC against the TokStream.tla law",
